@@ -528,7 +528,8 @@ func loadObjectFromStdin(
 
 	var err error
 	view, ok := scope.Global().TemporaryTables.Load(stdin.String())
-	if !ok || (forUpdate && !view.FileInfo.ForUpdate) {
+	// FileInfo.ForUpdate is never set for stdin; the transaction records whether it holds the update lock.
+	if !ok || (forUpdate && !scope.Tx.stdinIsLocked) {
 		if forUpdate {
 			if err = scope.Tx.LockStdinContext(ctx); err != nil {
 				return nil, err
